@@ -467,7 +467,7 @@ def run(ctx):
 
     # (1) intersections
     set_cases = ["I 1,2,3;2,3;0,3,5", "I -", "I -;1", "I 0", "I 1,5,9;1,5,9", "I 0,2,4,6;1,3,5,7", "I 0,1,2,3,4,5,6,7,8,9;9;0,9"]
-    set_cases += [gen_sets(rng) for _ in range(ctx.pick(1500, 40000))]
+    set_cases += [gen_sets(rng) for _ in range(ctx.pick(3000, 40000))]
     sout = vlib.run_lines(impl_sets, set_cases)
     spec_fail = []
     for c, o in zip(set_cases, sout):
@@ -478,7 +478,7 @@ def run(ctx):
     # (2) the filter tool
     cases = corpus_cases()
     ctx.count("corpus_cases", len(cases))
-    cases += [gen_case(rng) for _ in range(ctx.pick(500, 9000))]
+    cases += [gen_case(rng) for _ in range(ctx.pick(1500, 12000))]
     impl_ans = []
     nontrivial = set()
     kinds = {}
@@ -497,7 +497,7 @@ def run(ctx):
                 nontrivial.add(model_line(case))
 
     # (3) query equivalence through bin/query
-    qcases = [gen_query_case(rng, i) for i in range(ctx.pick(25, 400))]
+    qcases = [gen_query_case(rng, i) for i in range(ctx.pick(60, 600))]
     qok = qdrop = 0
     for qc in qcases:
         st, info = run_query_case(ctx, tools, qc)
